@@ -56,7 +56,7 @@ fn main() {
         match wl.as_str() {
             // upper-layer workloads observe the API; chmux hook events would only bloat their traces
             "rwlock" => install_hook_sink_for(&["rw_"]),
-            "robs_script" | "bcast" | "watch" | "typed_base" | "typed_mpsc" | "rtc" | "rtc_once" | "rfn" | "robs_chain" | "io" | "wiring" => {}
+            "robs_script" | "bcast" | "watch" | "typed_base" | "typed_mpsc" | "rtc" | "rtc_once" | "rfn" | "robs_chain" | "robs_err" | "robs_list" | "io" | "wiring" => {}
             _ => install_hook_sink(),
         }
         match wl.as_str() {
@@ -132,6 +132,12 @@ fn main() {
                 let o = rtc::RtcOpts { remote: get("remote", 1) != 0, cut: get("cut", 0) != 0, oversize: get("oversize", 0) != 0,
                                        undecodable: get("undecodable", 0) != 0, flavour: get("flavour", 4), conns: get("conns", 1) };
                 rt.block_on(rtc::scenario(s, &o));
+            }
+            "robs_err" => {
+                rt.block_on(robs::err_scenario(s, get("coll", 4), get("case", 5)));
+            }
+            "robs_list" => {
+                rt.block_on(robs::list_scenario(s));
             }
             "robs_chain" => {
                 rt.block_on(robs::chain_scenario(s, get("coll", 4)));
